@@ -30,7 +30,7 @@ class Check(BaseCheck):
             'distinct = distinct (operator, operands, injection).')
     ASSUMPTIONS = ('which text spells a date is decided by dateutil (trusted base); non-numeric text is screened with it',
                    'date results with serial in [0,61) (January/February 1900) or beyond 9999-12-31 are not judged',
-                   'one-element arrays (which combine like a scalar) are judged for commutativity only, empty arrays not at all; for & only text, integers and blanks are claimed',
+                   'one-element arrays (which combine like a scalar) and empty arrays are judged for commutativity only; for & only text, integers and blanks are claimed',
                    'result kind = date iff exactly one operand is date-like, except blank/date -> number (pinned by test_implicit_conversions_blank)')
 
     def plan(self, tier, seed):
@@ -58,12 +58,20 @@ class Check(BaseCheck):
         self.e.p.on('callCellValue', lambda cell, setter: setter(self.cellvals.get(cell.label)))
         from dateutil.parser import parse as du
 
-        def parse_date_text(s):
+        def parse_date_text(s, strict=True):
+            # which text spells a date is dateutil's call; which date a text with MISSING fields ('1,5', 'March 2020', '10:30') spells is
+            # nobody's (the statement does not say, and no oracle may fill them in from today): such text is not judged
             try:
-                d = du(s)
+                d = du(s, default=D(1900, 1, 1))
+                d2 = du(s, default=D(2001, 2, 3, 4, 5, 6))
             except (ValueError, OverflowError):
                 return None
-            return d.replace(tzinfo=None) if d.tzinfo is not None else d
+            d, d2 = (x.replace(tzinfo=None) if x.tzinfo is not None else x for x in (d, d2))
+            if d != d2:
+                if strict:
+                    raise M.Skip('date text with missing fields')
+                return d
+            return d
         self.pdt = parse_date_text
         cp = probe.CallProbe()
         from hotxlfp.formulas import operators
@@ -85,13 +93,13 @@ class Check(BaseCheck):
 
     def gen(self, rnd, cls):
         if cls == 'array':
-            n = rnd.choice([1, 2, 2, 3, 4, 5, 6])       # one-element arrays: only commutativity is judged (see ASSUMPTIONS)
+            n = rnd.choice([1, 2, 2, 3, 4, 5, 6, 0])    # one-element and empty arrays: only commutativity is judged (see ASSUMPTIONS)
             return [GV.gen(rnd, rnd.choice(['int', 'float', 'int', 'bool', 'blank', 'numtext', 'text', 'date'])) for _ in range(n)]
         if cls == 'nested':
             k, rows = rnd.choice([1, 2, 2, 3, 4]), rnd.choice([1, 2, 2, 2, 3])      # also 1xk, kx1 and 1x1: commutativity only
             return [[GV.gen(rnd, rnd.choice(['int', 'float', 'numtext'])) for _ in range(k)] for _ in range(rows)]
         v = GV.gen(rnd, cls)
-        if cls == 'text' and (self.pdt(v) is not None or M.spelled_number_safe(v)):
+        if cls == 'text' and (self.pdt(v, False) is not None or M.spelled_number_safe(v)):
             return 'abc'
         return v
 
@@ -103,7 +111,7 @@ class Check(BaseCheck):
             self.cellvals['A1'], self.cellvals['$B$2'] = a, b
             return 'A1%s$b$2' % op
         la, lb = self.literal(a), self.literal(b)
-        if la is None or lb is None:
+        if la is None or lb is None or a == [] or b == []:        # (there is no literal for an empty array)
             self.e.bind(v_a=a, v_b=b)
             return 'v_a%sv_b' % op
         return '%s%s%s' % (la, op, lb)
@@ -148,7 +156,7 @@ class Check(BaseCheck):
         def datey(x):
             if isinstance(x, list):
                 return any(datey(y) for y in x)
-            return isinstance(x, D) or (isinstance(x, str) and self.pdt(x) is not None)
+            return isinstance(x, D) or (isinstance(x, str) and self.pdt(x, False) is not None)
         self.serial_slack = Fr(1, 10 ** 9) if (datey(a) or datey(b)) else 0
         try:
             exp = M.combine(op, a, b, self.pdt)
@@ -201,8 +209,10 @@ class Check(BaseCheck):
                         if op in '+*':
                             r2 = self.judge_one(rec, op, b, a, how, cb, ca)
                             if outcome(r1) != outcome(r2):
-                                single = any(isinstance(x, list) and (len(x) == 1 or (isinstance(x[0], list) and len(x[0]) == 1)) for x in (a, b))
-                                rec.violation('C06/%s-not-commutative:%s-%s%s' % (op, GV.broad_class(a), GV.broad_class(b), ':one-element-array' if single else ''), a=a, b=b, ab=r1, ba=r2)
+                                single = any(isinstance(x, list) and len(x) > 0 and (len(x) == 1 or (isinstance(x[0], list) and len(x[0]) == 1)) for x in (a, b))
+                                if any(isinstance(x, list) and len(x) == 0 for x in (a, b)):
+                                    single = 'empty'
+                                rec.violation('C06/%s-not-commutative:%s-%s%s' % (op, GV.broad_class(a), GV.broad_class(b), (':empty-array' if single == 'empty' else ':one-element-array') if single else ''), a=a, b=b, ab=r1, ba=r2)
                             rec.count('commutativity_pairs')
                     rec.sample({'a': repr(a), 'b': repr(b), 'ops': OPS})
 
